@@ -38,6 +38,11 @@ type Program struct {
 	funcsCache map[string][]*ssa.Function
 	allFuncs   []*ssa.Function
 	closureOf  map[*ssa.Function]*ssa.MakeClosure
+
+	// inlining normal form (inline.go)
+	anchors     map[string]bool // functions rules refer to by name (never inlined)
+	anchorsSeen map[string]bool // functions requested by name during this run
+	Inline      InlineStats
 }
 
 // Load loads ./... under dir. overlay maps absolute file names to replacement contents
@@ -219,7 +224,10 @@ func (p *Program) Func(rel, name string) *ssa.Function {
 		return nil
 	}
 
-	return sp.Func(name)
+	f := sp.Func(name)
+	p.MarkAnchor(f)
+
+	return f
 }
 
 // Named finds a named type in a package.
@@ -248,7 +256,10 @@ func (p *Program) Method(rel, recv, name string) *ssa.Function {
 
 	for i := range n.NumMethods() {
 		if n.Method(i).Name() == name {
-			return p.SSA.FuncValue(n.Method(i))
+			f := p.SSA.FuncValue(n.Method(i))
+			p.MarkAnchor(f)
+
+			return f
 		}
 	}
 
@@ -266,6 +277,7 @@ func (p *Program) Methods(rel, recv string) []*ssa.Function {
 
 	for i := range n.NumMethods() {
 		if f := p.SSA.FuncValue(n.Method(i)); f != nil {
+			p.MarkAnchor(f)
 			out = append(out, f)
 		}
 	}
